@@ -59,6 +59,13 @@ def extra_requests(game, rng, inv):
             reqs += [login] * r2.choice([1, 2, 2, 4]) if r2.random() < 0.8 else [["network", "node", c, "service", "terminal", "remote_logoff", ip]]
         except Exception:
             pass
+    # a watched folder deleted now and restored in the next tick (observed while it is gone, and again before any scan)
+    if r2.random() < 0.2:
+        cands = sorted((n, fo) for n in hosts for fo, fl in inv[n]["folders"].items() if fo not in ("root",))
+        if cands:
+            n, fo = r2.choice(cands)
+            reqs.append(["network", "node", n, "file_system", "delete", "folder", fo])
+            PENDING.append(["network", "node", n, "file_system", "restore", "folder", fo])
     h = rng.choice(hosts)
     k = rng.choice([0, 0, 1, 2, 5, 7])
     for i in range(k):
